@@ -160,6 +160,19 @@ fn oracle_next() -> bool {
     }
 }
 
+/// The decoder has `debug_assert_eq!(nonce.len(), 16)` after a successful decryption (dev profile
+/// only; "for the current ciphers ... the nonce should always be 16 bytes"). The oracle therefore
+/// accepts only 16-byte nonces unless this flag is set (see the report: dev-only panic).
+pub static mut ORACLE_ANY_NONCE: bool = false;
+
+pub fn oracle_decrypt_n(nonce: &[u8], ct: &[u8]) -> Result<Vec<u8>, DecryptError> {
+    if unsafe { !ORACLE_ANY_NONCE } && nonce.len() != NONCE_LEN {
+        oracle_next();
+        return Err(DecryptError);
+    }
+    oracle_decrypt(ct)
+}
+
 pub fn oracle_decrypt(ct: &[u8]) -> Result<Vec<u8>, DecryptError> {
     if oracle_next() && ct.len() >= TAG_LEN {
         unsafe {
@@ -177,8 +190,8 @@ impl Cipher for OracleCipher {
     fn encrypt(&self, _b: &mut [u8], _n: usize, _aad: &[u8]) -> std::io::Result<EncryptResult> {
         Err(std::io::ErrorKind::Other.into())
     }
-    fn decrypt(&self, _nonce: &[u8], ciphertext: &[u8], _aad: &[u8]) -> Result<Vec<u8>, DecryptError> {
-        oracle_decrypt(ciphertext)
+    fn decrypt(&self, nonce: &[u8], ciphertext: &[u8], _aad: &[u8]) -> Result<Vec<u8>, DecryptError> {
+        oracle_decrypt_n(nonce, ciphertext)
     }
     fn key_bytes(&self) -> &[u8] {
         &[]
@@ -188,7 +201,7 @@ impl Cipher for OracleCipher {
 /// Stubs for the real AES-SIV types (KeySet context: the cookie keys are `AesSivCmac512`, the
 /// session keys recovered from a cookie are `AesSivCmac256`/`512`). Cookie decryption is the call
 /// with empty associated data (keyset.rs); it yields the ghost cookie plaintext.
-pub fn aes512_decrypt_stub(_s: &AesSivCmac512, _nonce: &[u8], ct: &[u8], aad: &[u8]) -> Result<Vec<u8>, DecryptError> {
+pub fn aes512_decrypt_stub(_s: &AesSivCmac512, nonce: &[u8], ct: &[u8], aad: &[u8]) -> Result<Vec<u8>, DecryptError> {
     if aad.is_empty() {
         if oracle_next() {
             unsafe {
@@ -199,11 +212,11 @@ pub fn aes512_decrypt_stub(_s: &AesSivCmac512, _nonce: &[u8], ct: &[u8], aad: &[
             Err(DecryptError)
         }
     } else {
-        oracle_decrypt(ct)
+        oracle_decrypt_n(nonce, ct)
     }
 }
-pub fn aes256_decrypt_stub(_s: &AesSivCmac256, _nonce: &[u8], ct: &[u8], _aad: &[u8]) -> Result<Vec<u8>, DecryptError> {
-    oracle_decrypt(ct)
+pub fn aes256_decrypt_stub(_s: &AesSivCmac256, nonce: &[u8], ct: &[u8], _aad: &[u8]) -> Result<Vec<u8>, DecryptError> {
+    oracle_decrypt_n(nonce, ct)
 }
 
 pub fn real_keyset(id_offset: u32) -> ntp_proto::KeySet {
@@ -250,12 +263,47 @@ pub const fn pad4(n: usize) -> usize {
     (n + 3) & !3
 }
 
+/// Concrete layout: first header byte `b0` (leap/version/mode) concrete; for NTPv5 the control
+/// bytes 12 (timescale) and 14..16 (flags) concrete as well (`v5ctl` = (timescale, flag bits)).
+/// Everything else in the header symbolic. Why concrete: every feasible early `return Err` of the
+/// header parser is merged with the Ok value, after which CBMC no longer knows the constant header
+/// size and the field parser runs on symbolic offsets (measured: > 300 s instead of 4 s). The header
+/// parser alone is covered with fully symbolic bytes by the unstructured harnesses.
+/// `cut` bytes are chopped off the end (truncated images).
+#[cfg(kani)]
+pub fn layout<const N: usize, const K: usize>(b0: u8, v5ctl: Option<(u8, u8)>, fields: [F; K], trailer: usize, cut: usize) -> Img<N, K> {
+    let mut img: Img<N, K> = image(None, fields, trailer, trailer);
+    img.buf[0] = b0;
+    if let Some((ts, fl)) = v5ctl {
+        img.buf[12] = ts;
+        img.buf[14] = 0;
+        img.buf[15] = fl;
+    }
+    assert!(cut <= img.len - 48);
+    img.len -= cut;
+    img
+}
+
 // ------------------------------------------------------------------ decoder / encoder wrappers
 pub enum Outcome<'a> {
     Accepted(NtpPacket<'a>, bool),
     DecryptFailed(NtpPacket<'a>),
     Rejected,
 }
+
+impl Outcome<'_> {
+    /// 0 = rejected, 1 = decrypt error, 2 = accepted
+    pub fn code(&self) -> u8 {
+        match self {
+            Outcome::Rejected => 0,
+            Outcome::DecryptFailed(_) => 1,
+            Outcome::Accepted(..) => 2,
+        }
+    }
+}
+pub const REJ: u8 = 0;
+pub const DEC: u8 = 1;
+pub const ACC: u8 = 2;
 
 pub fn decode<'a>(data: &'a [u8], cipher: &(impl CipherProvider + ?Sized)) -> Outcome<'a> {
     match NtpPacket::deserialize(data, cipher) {
